@@ -227,7 +227,7 @@ func topBody(kind, who string) func(x *harness.X) {
 		pl := lib.NewPipeListener(nil, 64<<10, 1)
 		inaddr := lime.InProcessAddr("c13top")
 		var bl lime.BoundListener
-		if kind == "tcp" {
+		if kind != "inproc" {
 			bl = lime.NewBoundListener(pl, lib.PipeAddr("p"))
 		} else {
 			bl = lime.NewBoundListener(lime.NewInProcessTransportListener(inaddr), inaddr)
@@ -250,10 +250,10 @@ func topBody(kind, who string) func(x *harness.X) {
 			if dials > 1 {
 				return nil, fmt.Errorf("connection refused")
 			}
-			if kind == "tcp" {
-				c := pl.Dial()
+			if kind != "inproc" {
+				t, c := pl.DialKind(kind)
 				s.cconn = c
-				return lime.NewTCPTransportFromConn(c, nil, false), nil
+				return t, nil
 			}
 			t, ok := lib.TryDialInProc(inaddr, 1)
 			if !ok {
@@ -269,7 +269,7 @@ func topBody(kind, who string) func(x *harness.X) {
 			rt.Stop()
 		}
 		rt.Quiesce()
-		if kind == "tcp" && len(pl.Servers) > 0 {
+		if kind != "inproc" && len(pl.Servers) > 0 {
 			s.sconn = pl.Servers[0]
 		}
 		if rt.Choose(2) == 1 {
@@ -382,7 +382,7 @@ func servedBody(kind, who string) func(x *harness.X) {
 		pl := lib.NewPipeListener(nil, 64<<10, 1)
 		inaddr := lime.InProcessAddr("c13served")
 		var bl lime.BoundListener
-		if kind == "tcp" {
+		if kind != "inproc" {
 			bl = lime.NewBoundListener(pl, lib.PipeAddr("p"))
 		} else {
 			bl = lime.NewBoundListener(lime.NewInProcessTransportListener(inaddr), inaddr)
@@ -390,9 +390,8 @@ func servedBody(kind, who string) func(x *harness.X) {
 		srv := lime.NewServer(cfg, &lime.EnvelopeMux{}, bl)
 		go func() { _ = srv.ListenAndServe() }()
 		var tr lime.Transport
-		if kind == "tcp" {
-			s.cconn = pl.Dial()
-			tr = lime.NewTCPTransportFromConn(s.cconn, nil, false)
+		if kind != "inproc" {
+			tr, s.cconn = pl.DialKind(kind)
 		} else {
 			var ok bool
 			if tr, ok = lib.TryDialInProc(inaddr, 1); !ok {
@@ -408,7 +407,7 @@ func servedBody(kind, who string) func(x *harness.X) {
 			rt.Stop()
 		}
 		rt.Quiesce()
-		if kind == "tcp" && len(pl.Servers) > 0 {
+		if kind != "inproc" && len(pl.Servers) > 0 {
 			s.sconn = pl.Servers[0]
 		}
 		if aged {
@@ -567,7 +566,7 @@ func final(x *harness.X, res *rt.Result) {
 func main() {
 	opt := rt.Options{NoExplore: true, Horizon: 200 * time.Second, MaxSteps: 80000, BoundAll: true, NoTimerDeviation: true}
 	var scs []harness.Scenario
-	for _, kind := range []string{"inproc", "tcp"} {
+	for _, kind := range []string{"inproc", "tcp", "ws"} {
 		for _, who := range []string{"client-finish", "server-finish", "server-fail", "server-fail-from-handler", "server-finish-from-handler"} {
 			for _, traffic := range []bool{false, true} {
 				if strings.HasSuffix(who, "-from-handler") && traffic {
@@ -587,12 +586,12 @@ func main() {
 		}
 	}
 	topOpt := opt
-	for _, kind := range []string{"inproc", "tcp"} {
+	for _, kind := range []string{"inproc", "tcp", "ws"} {
 		for _, who := range []string{"Client.Close", "Server.Close"} {
 			scs = append(scs, harness.Scenario{Name: fmt.Sprintf("top/%s/%s", kind, who), Opt: topOpt, Quick: 1, Thorough: 2, Prune: false, Body: topBody(kind, who), Final: topFinal})
 		}
 	}
-	for _, kind := range []string{"inproc", "tcp"} {
+	for _, kind := range []string{"inproc", "tcp", "ws"} {
 		for _, who := range []string{"client-finish", "Server.Close"} {
 			scs = append(scs, harness.Scenario{Name: fmt.Sprintf("served/%s/%s", kind, who), Opt: topOpt, Quick: 1, Thorough: 2, Prune: false, Body: servedBody(kind, who), Final: servedFinal})
 		}
@@ -600,8 +599,8 @@ func main() {
 	harness.Main(harness.Check{
 		Property:  "C13",
 		Level:     "model_checking",
-		Rule:      "initiator {client finish, server finish, server fail, server finish/fail issued by the server's only consumer while the client keeps streaming} x transport {in-process (queue 0/1), TCP over virtual pipe} x channel buffer {0,1} x {idle, one message in flight each way}; both sides keep draining their streams; the observer closes its channel when its receiver is done; plus top-level scenarios: a real Client and a real Server (handlers registered, idle or one message in flight each way), ended by Client.Close or by Server.Close, after which the other endpoint is closed too and nothing at all may be left (the session brand new or two seconds old); and served scenarios: a real Server serving one client channel, session new or two seconds old, ended by the client finishing or by Server.Close, the client's terminal state and streams observed; all schedules within the deviation bound (delay bounding); distinct outcome = distinct observation log",
-		Assume:    []string{"WebSocket transports not explored under the scheduler", "the serving side answers a finishing request the way Server.handleChannel does (FinishSession when the receiver is done)"},
+		Rule:      "initiator {client finish, server finish, server fail, server finish/fail issued by the server's only consumer while the client keeps streaming} x transport {in-process (queue 0/1), TCP over virtual pipe, WebSocket (gorilla, real opening handshake) over virtual pipe} x channel buffer {0,1} x {idle, one message in flight each way}; both sides keep draining their streams; the observer closes its channel when its receiver is done; plus top-level scenarios: a real Client and a real Server (handlers registered, idle or one message in flight each way), ended by Client.Close or by Server.Close, after which the other endpoint is closed too and nothing at all may be left (the session brand new or two seconds old); and served scenarios: a real Server serving one client channel, session new or two seconds old, ended by the client finishing or by Server.Close, the client's terminal state and streams observed; all schedules within the deviation bound (delay bounding); distinct outcome = distinct observation log",
+		Assume:    []string{"the WebSocket listener's HTTP server is not part of the exploration: upgraded connections are handed to the real websocketTransport (verif hook)", "the serving side answers a finishing request the way Server.handleChannel does (FinishSession when the receiver is done)"},
 		Scenarios: scs,
 	})
 }
